@@ -722,6 +722,8 @@ class Rewriter:
                         if recv_txt in refs:
                             rtoks = [('id', recv_txt)]   # reference parameter: already a pointer
                             refs_used = True
+                        elif re.match(r'^(%s)\(' % '|'.join(cfg.get('ptr_calls', ['\x00'])), recv_txt):
+                            rtoks = recv                 # call returning a C++ reference = C pointer
                         else:
                             rtoks = [('op', '&')] + ([('op', '(')] + recv + [('op', ')')] if len(recv) > 1 else recv)
                     else:
@@ -769,7 +771,7 @@ class Rewriter:
                     inner = toks[i + 1:e]
                     if recv_txt in refs:
                         rtoks = [('id', recv_txt)]
-                    elif cfg.get('index_ptr', {}).get(cf):
+                    elif cfg.get('index_ptr', {}).get(cf) or re.match(r'^(%s)\(' % '|'.join(cfg.get('ptr_calls', ['\x00'])), recv_txt):
                         rtoks = recv
                     else:
                         rtoks = [('op', '&')] + ([('op', '(')] + recv + [('op', ')')] if len(recv) > 1 else recv)
